@@ -257,7 +257,7 @@ struct SplitHarness : vh::Harness {
         size_t cnt = 0;
         while (s->NextRecord(&b)) {
           res += " " + vh::hex(std::string(static_cast<const char *>(b.dptr), b.size));
-          if (++cnt > 100000) return "runaway";
+          if (++cnt > 20000) return "runaway";
         }
       } catch (const dmlc::Error &) {
         return "err:check";
@@ -300,7 +300,7 @@ struct SplitHarness : vh::Harness {
           if (!next(want_rec, &b)) break;
           res += " " + vh::hex(b);
           if (mode == "chunkrd" && bad.empty()) bad = chunk_records(b, static_cast<unsigned>(arg), &recs);
-          if (++cnt > 100000) return "runaway";
+          if (++cnt > 20000) return "runaway";
         }
         res += " end";
         if (mode == "chunkrd") {
@@ -378,7 +378,7 @@ struct SplitHarness : vh::Harness {
       InputSplit::Blob b;
       std::vector<std::pair<std::string, bool>> blobs;
       size_t cnt = 0;
-      while (s->NextRecord(&b) && ++cnt < 100000)
+      while (s->NextRecord(&b) && ++cnt < 20000)
         blobs.push_back(std::make_pair(std::string(static_cast<const char *>(b.dptr), b.size), false));
       std::string why;
       canon(is_text, blobs, out, &why);
@@ -969,6 +969,11 @@ struct Gen {
     }
   }
 };
+
+// a mutated / defective doubling loop must end in a sanitizer abort, not in exhausting the machine
+extern "C" const char *__asan_default_options() {
+  return "detect_leaks=0:max_allocation_size_mb=1024:hard_rss_limit_mb=8000:allocator_may_return_null=0";
+}
 
 int main(int argc, char **argv) {
   vh::Runner R;
